@@ -6,11 +6,20 @@
         full  → per pair `dx dy dz dmag2 margin` (margin `-` when every candidate equals the result)
         err:value on incompatible lengths
   sys  dvect|dmag2 natoms px py pz <vects 9> <pos 3·natoms> SEL SEL
-        SEL := I i | S a b c (`_` = None) | L k i₁…i_k | P k <3·k values>
+        SEL := I i | S a b c (`_` = None) | L k i₁…i_k | T k i₁…i_k (tuple) | Q k <3·k ints> (integer (k,3) array)
+               | P k <3·k values>
         reply `sq …` (the len==1 squeeze) or `arr k …`; err:type / err:value / err:undefined
   disp <box_reference> n0 n1 px py pz <vects0 9> px py pz <vects1 9> <pos0 3·n0> <pos1 3·n1>
         3·n values; err:value for different atom counts or an unknown reference
   slice n a b c        → the expanded indices (for checking `sliceIndices` against python)
+
+  stateful part (one heap of Box and System objects, `w reset` empties it):
+  w reset | w newbox <v 9> <o 3> | w newsys b px py pz n <pos 3n>            → ok <id>
+  w boxvects b <v 9> | w boxorigin b <o 3> | w boxset b <v 9> <o 3> | w sysboxset s <v 9> <o 3> scale
+  w pbcset s px py pz | w pbcedit s axis flag | w posedit s i <p 3> | w posset s n <pos 3n>   → ok / err:op
+  w state s            → `px py pz | vects | origin | positions`
+  w arr dvect|dmag2 b px py pz n0 n1 <pos0> <pos1>   (module-level call with Box object b)
+  w sys dvect|dmag2 s SEL SEL | w disp <ref> s0 s1
 -/
 import Atomman.C02
 open Atomman Atomman.C02
@@ -82,6 +91,18 @@ def sel : P (Sel Rat) := fun l => do
     let (n, l) ← nat l
     let (is, l) ← many int n l
     pure (.list is, l)
+  | "T" =>
+    let (n, l) ← nat l
+    let (is, l) ← many int n l
+    pure (.tuple is, l)
+  | "Q" =>
+    let (n, l) ← nat l
+    let (is, l) ← many (fun l => do
+      let (a, l) ← int l
+      let (b, l) ← int l
+      let (c, l) ← int l
+      pure ((a, b, c), l)) n l
+    pure (.ipos is, l)
   | "P" =>
     let (n, l) ← nat l
     let (ps, l) ← many v3 n l
@@ -163,6 +184,133 @@ def handleSlice (l : List String) : Option String := do
     | some ks => " ".intercalate ("ok" :: ks.map toString)
     | none => err "value")
 
+/-! ### stateful part -/
+
+abbrev W := World Rat
+
+def showState (w : W) (s : Nat) : String :=
+  match w.systems[s]? with
+  | none => err "op"
+  | some st => match w.boxes[st.box]? with
+    | none => err "op"
+    | some b => " ".intercalate [showBool st.px, showBool st.py, showBool st.pz, "|", showRats b.vects.toList, "|",
+        showRats b.origin.toList, "|", showV3s st.pos]
+
+def parseOp (cmd : String) (l : List String) : Option (Op Rat) := do
+  match cmd with
+  | "newbox" =>
+    let (v, l) ← m3 l
+    let (o, l) ← v3 l
+    if l ≠ [] then none else pure (.newBox v o)
+  | "newsys" =>
+    let (b, l) ← nat l
+    let ((px, py, pz), l) ← pbc l
+    let (n, l) ← nat l
+    let (ps, l) ← many v3 n l
+    if l ≠ [] then none else pure (.newSys b px py pz ps)
+  | "boxvects" =>
+    let (b, l) ← nat l
+    let (v, l) ← m3 l
+    if l ≠ [] then none else pure (.boxVects b v)
+  | "boxorigin" =>
+    let (b, l) ← nat l
+    let (o, l) ← v3 l
+    if l ≠ [] then none else pure (.boxOrigin b o)
+  | "boxset" =>
+    let (b, l) ← nat l
+    let (v, l) ← m3 l
+    let (o, l) ← v3 l
+    if l ≠ [] then none else pure (.boxSet b v o)
+  | "sysboxset" =>
+    let (s, l) ← nat l
+    let (v, l) ← m3 l
+    let (o, l) ← v3 l
+    let (sc, l) ← bool l
+    if l ≠ [] then none else pure (.sysBoxSet s v o sc)
+  | "pbcset" =>
+    let (s, l) ← nat l
+    let ((px, py, pz), l) ← pbc l
+    if l ≠ [] then none else pure (.pbcSet s px py pz)
+  | "pbcedit" =>
+    let (s, l) ← nat l
+    let (k, l) ← nat l
+    let (f, l) ← bool l
+    if l ≠ [] then none else pure (.pbcEdit s k f)
+  | "posedit" =>
+    let (s, l) ← nat l
+    let (i, l) ← nat l
+    let (p, l) ← v3 l
+    if l ≠ [] then none else pure (.posEdit s i p)
+  | "posset" =>
+    let (s, l) ← nat l
+    let (n, l) ← nat l
+    let (ps, l) ← many v3 n l
+    if l ≠ [] then none else pure (.posSet s ps)
+  | _ => none
+
+def wArr (w : W) (l : List String) : Option String := do
+  let (kind, l) ← tok l
+  let (b, l) ← nat l
+  let ((px, py, pz), l) ← pbc l
+  let (n0, l) ← nat l
+  let (n1, l) ← nat l
+  let (pos0, l) ← many v3 n0 l
+  let (pos1, l) ← many v3 n1 l
+  if l ≠ [] then none else
+  match kind with
+  | "dvect" => pure (match w.arrDvect b px py pz pos0 pos1 with
+      | .ok r => showV3s r
+      | .error e => err e)
+  | "dmag2" => pure (match w.arrDmag2 b px py pz pos0 pos1 with
+      | .ok r => showRats r
+      | .error e => err e)
+  | _ => none
+
+def wSys (w : W) (l : List String) : Option String := do
+  let (kind, l) ← tok l
+  let (s, l) ← nat l
+  let (s0, l) ← sel l
+  let (s1, l) ← sel l
+  if l ≠ [] then none else
+  match kind with
+  | "dvect" => pure (match w.sysDvect s s0 s1 with
+      | .ok r => showSq r.1 r.2.length (r.2.flatMap fun p => p.toList.map showRat)
+      | .error e => err e)
+  | "dmag2" => pure (match w.sysDmag2 s s0 s1 with
+      | .ok r => showSq r.1 r.2.length (r.2.map showRat)
+      | .error e => err e)
+  | _ => none
+
+def wDisp (w : W) (l : List String) : Option String := do
+  let (ref, l) ← tok l
+  let (s0, l) ← nat l
+  let (s1, l) ← nat l
+  if l ≠ [] then none else
+  pure (match w.disp s0 s1 ref with
+    | .ok r => showV3s r
+    | .error e => err e)
+
+def stepW (w : W) (toks : List String) : W × String :=
+  match toks with
+  | ["reset"] => (World.empty, "ok")
+  | ["state", s] => match s.toNat? with
+    | some s => (w, showState w s)
+    | none => (w, err "format")
+  | "arr" :: r => (w, (wArr w r).getD (err "format"))
+  | "sys" :: r => (w, (wSys w r).getD (err "format"))
+  | "disp" :: r => (w, (wDisp w r).getD (err "format"))
+  | cmd :: r => match parseOp cmd r with
+    | none => (w, err "format")
+    | some op => match w.step op with
+      | none => (w, err "op")
+      | some w' =>
+        let id := match op with
+          | .newBox .. => s!" {w'.boxes.length - 1}"
+          | .newSys .. => s!" {w'.systems.length - 1}"
+          | _ => ""
+        (w', "ok" ++ id)
+  | [] => (w, err "format")
+
 end C02Drv
 
 def handleC02 (toks : List String) : String :=
@@ -173,4 +321,9 @@ def handleC02 (toks : List String) : String :=
   | "slice" :: r => (C02Drv.handleSlice r).getD (err "format")
   | _ => err "op"
 
-def main : IO Unit := runDriver handleC02
+def stepC02 (w : C02Drv.W) (toks : List String) : C02Drv.W × String :=
+  match toks with
+  | "w" :: r => C02Drv.stepW w r
+  | _ => (w, handleC02 toks)
+
+def main : IO Unit := runDriverS stepC02 World.empty
